@@ -76,21 +76,26 @@ func fatal(f string, a ...interface{}) {
 // ---------------------------------------------------------------- fake WattTime
 
 type fake struct {
-	scenario string
-	gca      refenc.Key
-	mu       sync.Mutex
-	devs     map[string]*dev // region name -> device
-	byLat    map[string]*dev // latitude as the server formats it -> device
-	targets  map[uint32]bool // weekban: devices banned while their own request is pending
-	lastHist atomic.Int64    // unix nanoseconds of the last historical request
-	down     atomic.Bool     // every request is answered 503
-	armed    atomic.Bool     // phase B: act on week-data requests
-	logins   atomic.Int64
-	regions  atomic.Int64
-	hist     atomic.Int64
-	weekReq  atomic.Int64 // week-data requests answered while armed
-	bans     atomic.Int64
-	rng      *rand.Rand
+	scenario   string
+	gca        refenc.Key
+	mu         sync.Mutex
+	devs       map[string]*dev // region name -> device
+	byLat      map[string]*dev // latitude as the server formats it -> device
+	targets    map[uint32]bool // weekban: devices banned while their own request is pending
+	lastHist   atomic.Int64    // unix nanoseconds of the last historical request
+	down       atomic.Bool     // every request is answered 503
+	holdJob    atomic.Int64    // weekrot: the job (login number) whose first week-data request is held
+	held       atomic.Bool
+	overlap    atomic.Bool // the window rotated while that request was held
+	holdOffset atomic.Uint32
+	srv        atomic.Pointer[server.GCAServer]
+	armed      atomic.Bool // phase B: act on week-data requests
+	logins     atomic.Int64
+	regions    atomic.Int64
+	hist       atomic.Int64
+	weekReq    atomic.Int64 // week-data requests answered while armed
+	bans       atomic.Int64
+	rng        *rand.Rand
 }
 
 type dev struct {
@@ -146,8 +151,7 @@ func (f *fake) ServeHTTP(w http.ResponseWriter, r *http.Request) {
 	}
 	switch r.URL.Path {
 	case "/login":
-		f.logins.Add(1)
-		fmt.Fprint(w, `{"token":"tok"}`)
+		fmt.Fprintf(w, `{"token":"tok%d"}`, f.logins.Add(1))
 	case "/v3/region-from-loc":
 		f.regions.Add(1)
 		f.mu.Lock()
@@ -172,6 +176,19 @@ func (f *fake) ServeHTTP(w http.ResponseWriter, r *http.Request) {
 			now := time.Now().UTC().Truncate(5 * time.Minute)
 			fmt.Fprintf(w, `{"data":[{"point_time":"%s","value":1.5}],"meta":{}}`, now.Format("2006-01-02T15:04:05+00:00"))
 			return
+		}
+		if f.holdJob.Load() != 0 && strings.TrimPrefix(r.Header.Get("Authorization"), "Bearer ") == fmt.Sprintf("tok%d", f.holdJob.Load()) && f.held.CompareAndSwap(false, true) {
+			// weekrot: the first week-data request of one job waits until the window has rotated (or 6 s)
+			emit(event{"ev": "weekrot.hold", "job": f.holdJob.Load(), "id": d.id})
+			t0 := time.Now()
+			for time.Since(t0) < 6*time.Second {
+				if sp := f.srv.Load(); sp != nil && sp.VerifSnapshot(false).Offset != f.holdOffset.Load() {
+					f.overlap.Store(true)
+					break
+				}
+				time.Sleep(20 * time.Millisecond)
+			}
+			emit(event{"ev": "weekrot.release", "rotated_meanwhile": f.overlap.Load()})
 		}
 		if f.armed.Load() {
 			f.weekReq.Add(1)
@@ -210,7 +227,7 @@ func (f *fake) ServeHTTP(w http.ResponseWriter, r *http.Request) {
 		n := 0
 		for t := start; !t.After(end) && n < 2016; t = t.Add(5 * time.Minute) {
 			// a function of device and absolute time: concurrent jobs (start-up call, rotation) write the same value for a slot
-			v := float64(d.id%1000) + float64(((t.Unix()-glow.GenesisTime)/300)%4096)/8 + 0.25
+			v := fakeValue(d.id, (t.Unix()-glow.GenesisTime)/300)
 			if n > 0 {
 				sb.WriteByte(',')
 			}
@@ -322,6 +339,10 @@ func Main() {
 	if scenario == "life" || scenario == "life-wtdown" {
 		f.down.Store(scenario == "life-wtdown") // WattTime answers 503 to everything: nothing else may depend on it
 		emit(lifeEpisode(work, seed, f))
+		return
+	}
+	if scenario == "weekrot" {
+		emit(weekRotEpisode(work, seed, f))
 		return
 	}
 	if scenario == "crash-serve" {
